@@ -238,7 +238,7 @@ Proof.
   induction fuel as [|f IH]; intros E q V adj H i p preds Hn.
   - destruct q as [|[p0 path0] rest]; cbn in H; [inversion H; subst; destruct i; discriminate | discriminate].
   - destruct q as [|[p0 path0] rest]; cbn in H; [inversion H; subst; destruct i; discriminate|].
-    assert (Hgen : forall ps V1 adj', bfs f E (rest ++ pushed path0 ps) st1 = Ok adj' -> adj = (p0, ps) :: adj' ->
+    assert (Hgen : forall ps st1 adj', bfs f E (rest ++ pushed path0 ps) st1 = Ok adj' -> adj = (p0, ps) :: adj' ->
               In p (map fst ((p0, path0) :: rest)) \/
               exists j p' preds', j < i /\ nth_error adj j = Some (p', preds') /\ In p preds' /\ ncyc p = false).
     { intros ps st1 adj' Hb Hadj. subst adj. destruct i as [|i'].
@@ -424,63 +424,95 @@ Proof.
   rewrite (A r1 H1), (A r2 H2). reflexivity.
 Qed.
 
-Lemma expand_sim : forall E kids V1 V2 p1 p2 r,
-  sim V1 V2 -> sim p1 p2 -> expand E kids V1 p1 = r ->
-  match r with
-  | Some (preds, V1') => exists V2', expand E kids V2 p2 = Some (preds, V2') /\ sim V1' V2'
-  | None => expand E kids V2 p2 = None
-  end.
+Lemma node_eqb_ntype : forall a b, node_eqb a b = true -> ntype a = ntype b.
 Proof.
-  intros E kids; induction kids as [|[var c] rest IH]; intros V1 V2 p1 p2 r HV Hp Hr; cbn in *.
-  - subst r. exists V2; auto.
-  - destruct (skip var c); [eapply IH; eauto|].
-    assert (Hsame : revisit c (unwrap c) (seen_set E (unwrap c) V1 p1) = revisit c (unwrap c) (seen_set E (unwrap c) V2 p2)).
-    { unfold seen_set. destruct (is_generic E (unwrap c)); [apply Hp | apply HV]. }
-    rewrite <- Hsame.
-    destruct (revisit c (unwrap c) (seen_set E (unwrap c) V1 p1) && can_be_cyclic E (unwrap c)).
-    + destruct (is_generic E (unwrap c) || should_unwrap c).
-      * specialize (IH V1 V2 p1 p2 _ HV Hp eq_refl).
-        destruct (expand E rest V1 p1) as [[ps V1']|]; subst r.
-        -- destruct IH as [V2' [H2 Hs]]. rewrite H2. exists V2'; auto.
-        -- rewrite IH; reflexivity.
-      * destruct (mkref E c (unwrap c) var) as [n|]; [|subst r; reflexivity].
-        specialize (IH V1 V2 p1 p2 _ HV Hp eq_refl).
-        destruct (expand E rest V1 p1) as [[ps V1']|]; subst r.
-        -- destruct IH as [V2' [H2 Hs]]. rewrite H2. exists V2'; auto.
-        -- rewrite IH; reflexivity.
-    + specialize (IH (c :: V1) (c :: V2) p1 p2 _ (sim_cons _ _ c HV) Hp eq_refl).
-      destruct (expand E rest (c :: V1) p1) as [[ps V1']|]; subst r.
-      * destruct IH as [V2' [H2 Hs]]. rewrite H2. exists V2'; auto.
-      * rewrite IH; reflexivity.
+  intros a b H; unfold node_eqb in H.
+  apply andb_true_iff in H; destruct H as [H _]. apply andb_true_iff in H; destruct H as [H _].
+  apply andb_true_iff in H; destruct H as [H _]. apply gty_eqb_eq in H; exact H.
 Qed.
 
-(* queues that hold the same nodes with revisit-equivalent paths *)
-Inductive qsim : list (node * list gty) -> list (node * list gty) -> Prop :=
-| qsim_nil : qsim [] []
-| qsim_cons : forall n p1 p2 q1 q2, sim p1 p2 -> qsim q1 q2 -> qsim ((n, p1) :: q1) ((n, p2) :: q2).
+Section Sim.
+  Variable Xr : gty.      (* the common unwrapped form of the two roots; it is on every path *)
 
-Lemma qsim_app : forall a1 a2 b1 b2, qsim a1 a2 -> qsim b1 b2 -> qsim (a1 ++ b1) (a2 ++ b2).
-Proof. intros a1 a2 b1 b2 H; induction H; cbn; intros Hb; [exact Hb | constructor; auto]. Qed.
+  Definition simX (X1 X2 : list node) : Prop := forall n, unwrap (ntype n) <> Xr -> nmem n X1 = nmem n X2.
+  Definition sst (s1 s2 : state) : Prop := sim (fst s1) (fst s2) /\ simX (snd s1) (snd s2).
 
-Lemma qsim_pushed : forall p1 p2 preds, sim p1 p2 -> qsim (pushed p1 preds) (pushed p2 preds).
-Proof.
-  intros p1 p2 preds H. unfold pushed. induction (filter (fun n => negb (ncyc n)) preds) as [|n r IH]; cbn.
-  - constructor.
-  - constructor; [apply sim_cons; exact H | exact IH].
-Qed.
+  Lemma sst_push : forall s1 s2 c u var, sst s1 s2 -> sst (push_st c u var s1) (push_st c u var s2).
+  Proof.
+    intros s1 s2 c u var [H1 H2]; split; cbn.
+    - apply sim_cons; exact H1.
+    - intros n Hn. unfold nmem; cbn. specialize (H2 n Hn). unfold nmem in H2. rewrite H2. reflexivity.
+  Qed.
 
-Lemma bfs_sim : forall fuel E q1 q2 V1 V2, qsim q1 q2 -> sim V1 V2 -> bfs fuel E q1 V1 = bfs fuel E q2 V2.
-Proof.
-  induction fuel as [|f IH]; intros E q1 q2 V1 V2 Hq HV; destruct Hq as [|n p1 p2 r1 r2 Hp Hr]; cbn; try reflexivity.
-  destruct (is_literal (unwrap (ntype n))).
-  - rewrite (IH E r1 r2 V1 V2 Hr HV). reflexivity.
-  - pose proof (expand_sim E (level E (unwrap (ntype n))) V1 V2 p1 p2 _ HV Hp eq_refl) as Hex.
-    destruct (expand E (level E (unwrap (ntype n))) V1 p1) as [[preds V1']|].
-    + destruct Hex as [V2' [H2 Hs]]. rewrite H2.
-      rewrite (IH E (r1 ++ pushed p1 preds) (r2 ++ pushed p2 preds) V1' V2'); [reflexivity | | exact Hs].
-      apply qsim_app; [exact Hr | apply qsim_pushed; exact Hp].
-    + rewrite Hex. reflexivity.
-Qed.
+  Lemma visitedb_sim : forall E c var s1 s2 p1 p2, sst s1 s2 -> sim p1 p2 -> mem Xr p1 = true -> mem Xr p2 = true ->
+    visitedb E c (unwrap c) var s1 p1 = visitedb E c (unwrap c) var s2 p2.
+  Proof.
+    intros E c var s1 s2 p1 p2 [HV HX] Hp M1 M2. unfold visitedb, seen_set.
+    destruct (is_generic E (unwrap c)) eqn:Hg; cbn [andb].
+    - rewrite (Hp c). destruct (gty_eqb (unwrap c) Xr) eqn:Hx.
+      + apply gty_eqb_eq in Hx. unfold revisit. rewrite Hx, M2. rewrite !orb_true_r. reflexivity.
+      + rewrite (HX (mknode c (unwrap c) var)); [reflexivity|]. cbn. intros Heq. rewrite Heq, gty_eqb_refl in Hx. discriminate.
+    - rewrite (HV c). reflexivity.
+  Qed.
+
+  Lemma expand_sim : forall E kids s1 s2 p1 p2 r,
+    sst s1 s2 -> sim p1 p2 -> mem Xr p1 = true -> mem Xr p2 = true -> expand E kids s1 p1 = r ->
+    match r with
+    | Some (preds, s1') => exists s2', expand E kids s2 p2 = Some (preds, s2') /\ sst s1' s2'
+    | None => expand E kids s2 p2 = None
+    end.
+  Proof.
+    intros E kids; induction kids as [|[var c] rest IH]; intros s1 s2 p1 p2 r HS Hp M1 M2 Hr; cbn in *.
+    - subst r. exists s2; auto.
+    - destruct (skip var c); [eapply IH; eauto|].
+      rewrite <- (visitedb_sim E c var s1 s2 p1 p2 HS Hp M1 M2).
+      destruct (visitedb E c (unwrap c) var s1 p1 && can_be_cyclic E (unwrap c)).
+      + destruct (is_generic E (unwrap c) || should_unwrap c).
+        * specialize (IH s1 s2 p1 p2 _ HS Hp M1 M2 eq_refl).
+          destruct (expand E rest s1 p1) as [[ps s1']|]; subst r.
+          -- destruct IH as [s2' [H2 Hs]]. rewrite H2. exists s2'; auto.
+          -- rewrite IH; reflexivity.
+        * destruct (mkref E c (unwrap c) var) as [n|]; [|subst r; reflexivity].
+          specialize (IH s1 s2 p1 p2 _ HS Hp M1 M2 eq_refl).
+          destruct (expand E rest s1 p1) as [[ps s1']|]; subst r.
+          -- destruct IH as [s2' [H2 Hs]]. rewrite H2. exists s2'; auto.
+          -- rewrite IH; reflexivity.
+      + specialize (IH _ _ p1 p2 _ (sst_push _ _ c (unwrap c) var HS) Hp M1 M2 eq_refl).
+        destruct (expand E rest (push_st c (unwrap c) var s1) p1) as [[ps s1']|]; subst r.
+        * destruct IH as [s2' [H2 Hs]]. rewrite H2. exists s2'; auto.
+        * rewrite IH; reflexivity.
+  Qed.
+
+  (* queues that hold the same nodes with revisit-equivalent paths through the root *)
+  Inductive qsim : list (node * list gty) -> list (node * list gty) -> Prop :=
+  | qsim_nil : qsim [] []
+  | qsim_cons : forall n p1 p2 q1 q2, sim p1 p2 -> mem Xr p1 = true -> mem Xr p2 = true -> qsim q1 q2 ->
+                                      qsim ((n, p1) :: q1) ((n, p2) :: q2).
+
+  Lemma qsim_app : forall a1 a2 b1 b2, qsim a1 a2 -> qsim b1 b2 -> qsim (a1 ++ b1) (a2 ++ b2).
+  Proof. intros a1 a2 b1 b2 H; induction H; cbn; intros Hb; [exact Hb | constructor; auto]. Qed.
+
+  Lemma qsim_pushed : forall p1 p2 preds, sim p1 p2 -> mem Xr p1 = true -> mem Xr p2 = true ->
+    qsim (pushed p1 preds) (pushed p2 preds).
+  Proof.
+    intros p1 p2 preds H M1 M2. unfold pushed. induction (filter (fun n => negb (ncyc n)) preds) as [|n r IH]; cbn.
+    - constructor.
+    - constructor; [apply sim_cons; exact H | | | exact IH]; unfold mem in *; cbn; rewrite ?M1, ?M2; apply orb_true_r.
+  Qed.
+
+  Lemma bfs_sim : forall fuel E q1 q2 s1 s2, qsim q1 q2 -> sst s1 s2 -> bfs fuel E q1 s1 = bfs fuel E q2 s2.
+  Proof.
+    induction fuel as [|f IH]; intros E q1 q2 s1 s2 Hq HS; destruct Hq as [|n p1 p2 r1 r2 Hp M1 M2 Hr]; cbn; try reflexivity.
+    destruct (is_literal (unwrap (ntype n))).
+    - rewrite (IH E r1 r2 s1 s2 Hr HS). reflexivity.
+    - pose proof (expand_sim E (level E (unwrap (ntype n))) s1 s2 p1 p2 _ HS Hp M1 M2 eq_refl) as Hex.
+      destruct (expand E (level E (unwrap (ntype n))) s1 p1) as [[preds s1']|].
+      + destruct Hex as [s2' [H2 Hs]]. rewrite H2.
+        rewrite (IH E (r1 ++ pushed p1 preds) (r2 ++ pushed p2 preds) s1' s2'); [reflexivity | | exact Hs].
+        apply qsim_app; [exact Hr | apply qsim_pushed; assumption].
+      + rewrite Hex. reflexivity.
+  Qed.
+End Sim.
 
 (* relabel the key of the first entry *)
 Definition relabel_root (r : node) (a : adjacency) : adjacency :=
@@ -488,22 +520,32 @@ Definition relabel_root (r : node) (a : adjacency) : adjacency :=
 Definition res_map {A B} (f : A -> B) (r : res A) : res B :=
   match r with Ok a => Ok (f a) | OutOfFuel => OutOfFuel | Unmodelled => Unmodelled end.
 
+Lemma sim_sym : forall a b, sim a b -> sim b a.
+Proof. intros a b H c; symmetry; apply H. Qed.
+
 Lemma input_forms : forall fuel E r1 r2, unwrap r1 = unwrap r2 ->
   type_graph fuel E r2 = res_map (relabel_root (root_node r2)) (type_graph fuel E r1).
 Proof.
-  intros fuel E r1 r2 Hu. unfold type_graph. destruct fuel as [|f]; cbn; [reflexivity|].
-  unfold root_node at 1 3; cbn [ntype mknode]. rewrite <- Hu.
-  assert (Hs : sim [r1; unwrap r1] [r2; unwrap r1]) by (apply sim_roots; auto).
-  destruct (is_literal (unwrap r1)).
-  - rewrite (bfs_sim f E [] [] [r2; unwrap r1] [r1; unwrap r1]); [|constructor|intros c; symmetry; apply Hs].
-    destruct (bfs f E [] [r1; unwrap r1]); cbn; try reflexivity; unfold root_node; rewrite <- Hu; reflexivity.
-  - pose proof (expand_sim E (level E (unwrap r1)) _ _ _ _ _ Hs Hs eq_refl) as Hex.
-    destruct (expand E (level E (unwrap r1)) [r1; unwrap r1] [r1; unwrap r1]) as [[preds V1']|].
-    + destruct Hex as [V2' [H2 Hs2]]. rewrite H2. cbn [app].
-      rewrite (bfs_sim f E (pushed [r2; unwrap r1] preds) (pushed [r1; unwrap r1] preds) V2' V1').
-      * destruct (bfs f E (pushed [r1; unwrap r1] preds) V1'); cbn; try reflexivity;
-          unfold root_node; rewrite <- Hu; reflexivity.
-      * apply qsim_pushed. intros c; symmetry; apply Hs.
-      * intros c; symmetry; apply Hs2.
+  intros fuel E r1 r2 Hu. unfold type_graph, root_node. rewrite <- Hu.
+  set (Xr := unwrap r1). set (n1 := mknode r1 Xr None). set (n2 := mknode r2 Xr None).
+  destruct fuel as [|f]; [reflexivity|]. cbn [bfs]. cbn [ntype n1 n2 mknode]. rewrite <- ?Hu. fold Xr.
+  assert (Hs : sim [r1; Xr] [r2; Xr]) by (apply sim_roots; auto).
+  assert (M : forall r, mem Xr [r; Xr] = true) by (intros r; unfold mem; cbn; rewrite gty_eqb_refl; apply orb_true_r).
+  assert (HS : sst Xr ([r2; Xr], [n2]) ([r1; Xr], [n1])).
+  { split; cbn; [apply sim_sym; exact Hs|]. intros n Hn. unfold nmem; cbn. rewrite !orb_false_r.
+    assert (A : forall r, unwrap r = Xr -> node_eqb n (mknode r Xr None) = false).
+    { intros r Hr. destruct (node_eqb n (mknode r Xr None)) eqn:Hb; [|reflexivity].
+      apply node_eqb_ntype in Hb. cbn in Hb. rewrite Hb in Hn. contradiction. }
+    unfold n1, n2. rewrite (A r1 eq_refl), (A r2 (eq_sym Hu)). reflexivity. }
+  destruct (is_literal Xr).
+  - rewrite (bfs_sim Xr f E [] [] _ _ (qsim_nil Xr) HS).
+    destruct (bfs f E [] ([r1; Xr], [n1])); reflexivity.
+  - pose proof (expand_sim Xr E (level E Xr) _ _ [r2; Xr] [r1; Xr] _ HS (sim_sym _ _ Hs) (M r2) (M r1) eq_refl) as Hex.
+    destruct (expand E (level E Xr) ([r2; Xr], [n2]) [r2; Xr]) as [[preds s2']|].
+    + destruct Hex as [s1' [H1 Hs1]]. rewrite H1. cbn [app].
+      rewrite (bfs_sim Xr f E (pushed [r2; Xr] preds) (pushed [r1; Xr] preds) s2' s1').
+      * destruct (bfs f E (pushed [r1; Xr] preds) s1'); reflexivity.
+      * apply qsim_pushed; [apply sim_sym; exact Hs | apply M | apply M].
+      * exact Hs1.
     + rewrite Hex. reflexivity.
 Qed.
